@@ -1,7 +1,8 @@
 #!/bin/sh
-# Build the fact-extraction driver and warm the dependency cache, offline, from files on disk only.
+# Build the fact-extraction driver, warm the dependency cache and the C-side facts, offline, from files on disk only.
 set -e
 cd "$(dirname "$0")"
 export CARGO_NET_OFFLINE=true
 (cd engine/driver && cargo +nightly build --release --offline)
 python3 engine/extract.py full
+python3 engine/cside.py >/dev/null
